@@ -576,6 +576,7 @@ class Attr(SimpleCorr):
         self.spec_stats = stats
         if getattr(self, "_out", None) is not None:
             self._out.coverage["document_codec"] = stats
+            self._out = None
         return out
 
     def shrink_candidates(self, lines):
@@ -601,7 +602,7 @@ class Attr(SimpleCorr):
 
     def extra(self, pid, out, tier, seed, d):
         lines = []
-        self._out = out            # disagreements() runs after this hook and files its statistics there
+        self._out = out            # the next disagreements() call (the main run) files its statistics there
         args = [vlib.harness_bin(), "attr-sweep", "--seed", str(seed)] + (["--thorough"] if tier == "thorough" else [])
         rc, o, _ = vlib.run(args, timeout=6000)
         out.coverage["threshold_sweep"] = o.strip().split("\n")[-1]
